@@ -2,7 +2,6 @@ package engdkg
 
 import (
 	"bytes"
-	"context"
 	"fmt"
 	"math/rand"
 	"time"
@@ -68,10 +67,20 @@ func (h *hist) command(i int, c *pdkg.DKGCommand, descr, role string, gossipFail
 		return nil, nil
 	}
 	var pk *pdkg.GossipPacket
-	out := n.waitOutbox(st.csig != nil && !gossipFail)
+	// BLS metadata signatures are deterministic: when the signature the command produced was already
+	// in SeenPackets no new element shows up, so the signature is then read off the gossiped packet
+	maybe := st.csig == nil && (st.class == "ok" || st.class == "other") && c.GetJoin() == nil
+	out := n.waitOutbox(st.csig != nil, maybe)
 	if len(out) > 0 {
 		pk = out[0].packet
-		h.pool = append(h.pool, pk)
+		if st.csig == nil {
+			st.csig = pk.GetMetadata().GetSignature()
+		}
+		if !gossipFail {
+			h.pool = append(h.pool, pk)
+		} else {
+			pk = nil
+		}
 	}
 	return st, pk
 }
@@ -116,12 +125,8 @@ func (h *hist) sign(p *pdkg.GossipPacket, terms *pdkg.ProposalTerms, signer *ide
 
 // termsAsStored is what termsFromState gives after a node has stored these terms.
 func termsAsStored(t *pdkg.ProposalTerms) *pdkg.ProposalTerms {
-	d := dkg.NewFreshState(t.GetBeaconID())
-	me := &pdkg.Participant{}
-	// use the real code to build the stored form: Proposed with a permissive base is not
-	// available without validation, so mirror only the NonEmpty filter here
-	_ = d
-	_ = me
+	// only the NonEmpty filter of Proposed/Proposing is mirrored here (a wrong mirror would only make
+	// the forged signature invalid, which the oracle Verify call reports as such)
 	o := proto.Clone(t).(*pdkg.ProposalTerms)
 	f := func(l []*pdkg.Participant) []*pdkg.Participant {
 		var r []*pdkg.Participant
@@ -248,4 +253,3 @@ func (h *hist) runKyber(maxWait time.Duration) {
 	}
 }
 
-var _ = context.Background
